@@ -1,25 +1,31 @@
 (* Correspondence obligations for C12: on every history the implementation ran,
-     loader_model  — the model (Model/Loader.v) produces exactly the observed outputs, including the
-                     distinction between an absent entry and a cached miss, error codes and the absence
-                     of runtime faults; the history must lie in the domain of the theorems (well-formed
-                     names, well-formed configuration);
+     loader_model  — the model (Model/Loader.v, Model/LoaderAdd.v, run through contexts: Model/LoaderCtx.v) produces
+                     exactly the observed outputs, including the distinction between an absent entry and a cached
+                     miss, error codes and the absence of runtime faults, and after every operation the context the
+                     operation went through holds the loader the model says (c.Loader(), by its number); the history
+                     must lie in the domain of the theorems (well-formed names, well-formed configuration);
      loader_spec   — the observed outputs, with a cached miss projected to a miss, are the outputs of the
                      abstract write-once specification (Model/LoaderSpec.v). *)
 From Coq Require Import ZArith NArith Bool List.
-From PcoreV Require Import Model.Base Model.Loader Model.LoaderSpec Model.LoaderAdd.
+From PcoreV Require Import Model.Base Model.Loader Model.LoaderSpec Model.LoaderAdd Model.LoaderCtx.
 Import ListNotations.
 
 (* A history is a list of `xop`: the operations of Model/Loader.v and px.AddTypes with object types and type
    sets (Model/LoaderAdd.v); the loaders are numbered as in the model (the type-set loaders that the resolution
-   of a type set creates count). *)
-Definition loader_check (cfg : config) (c : list xop * list xout) : bool :=
-  forallb (xop_wf cfg) (fst c) && list_eqb xout_eqb (xouts cfg (fst c)) (snd c).
+   of a type set creates count).  Third component: per operation, the number of the loader that the context of the
+   operation's loader held afterwards. *)
+Definition hcase : Type := list xop * list xout * list nat.
 
-Definition loader_mismatches (cfg : config) (cs : list (list xop * list xout)) : list N :=
+Definition loader_check (cfg : config) (c : hcase) : bool :=
+  let '(xs, outs, ctxs) := c in
+  forallb (xop_wf cfg) xs && list_eqb xout_eqb (couts cfg xs) outs && list_eqb Nat.eqb (cctxs cfg xs) ctxs.
+
+Definition loader_mismatches (cfg : config) (cs : list hcase) : list N :=
   if cfg_wf cfg then failing (loader_check cfg) cs else failing (fun _ => false) cs.
 
-Definition loader_spec_check (cfg : config) (c : list xop * list xout) : bool :=
-  list_eqb xout_eqb (spec_xouts cfg (fst c)) (map xproject (snd c)).
+Definition loader_spec_check (cfg : config) (c : hcase) : bool :=
+  let '(xs, outs, _) := c in
+  list_eqb xout_eqb (spec_xouts cfg xs) (map xproject outs).
 
-Definition loader_spec_violations (cfg : config) (cs : list (list xop * list xout)) : list N :=
+Definition loader_spec_violations (cfg : config) (cs : list hcase) : list N :=
   failing (loader_spec_check cfg) cs.
